@@ -149,7 +149,9 @@ func c05Load(files []c05File) (*chart.Chart, error) {
 // a cluster connection that leads nowhere: enough to make the engine "client aware"
 type c05Getter struct{}
 
-func (c05Getter) ToRESTConfig() (*rest.Config, error) { return &rest.Config{Host: "http://127.0.0.1:1"}, nil }
+func (c05Getter) ToRESTConfig() (*rest.Config, error) {
+	return &rest.Config{Host: "http://127.0.0.1:1"}, nil
+}
 func (c05Getter) ToDiscoveryClient() (discovery.CachedDiscoveryInterface, error) {
 	return nil, fmt.Errorf("c05: no discovery")
 }
@@ -159,6 +161,30 @@ type c05Provider struct{}
 
 func (c05Provider) GetClientFor(_, _ string) (dynamic.NamespaceableResourceInterface, bool, error) {
 	return nil, false, fmt.Errorf("c05: no cluster")
+}
+
+// c05Caps builds, without touching anything shared, the capabilities a client-only install with
+// the case's --api-versions / --kube-version is meant to render with.
+func c05Caps(c c05Case) *chartutil.Capabilities {
+	d := chartutil.DefaultCapabilities
+	caps := &chartutil.Capabilities{KubeVersion: d.KubeVersion, HelmVersion: d.HelmVersion}
+	caps.APIVersions = append(append(chartutil.VersionSet{}, d.APIVersions...), c.APIVersions...)
+	if c.KubeVersion != "" {
+		if kv, err := chartutil.ParseKubeVersion(c.KubeVersion); err == nil {
+			caps.KubeVersion = *kv
+		}
+	}
+	return caps
+}
+
+// c05SharedSnapshot is everything of chartutil's process-wide defaults a render could reach,
+// including the spare capacity of the shared version slice.
+func c05SharedSnapshot() string {
+	d := chartutil.DefaultCapabilities
+	full := d.APIVersions[:cap(d.APIVersions)]
+	dvs := chartutil.DefaultVersionSet[:cap(chartutil.DefaultVersionSet)]
+	return fmt.Sprintf("kube=%+v helm=%+v len=%d cap=%d api=%q defaultset(len=%d)=%q", d.KubeVersion, d.HelmVersion, len(d.APIVersions), cap(d.APIVersions), []string(full),
+		len(chartutil.DefaultVersionSet), []string(dvs))
 }
 
 // c05Install runs the real action.Install (dry-run, client-only) on a freshly loaded chart.
@@ -179,9 +205,16 @@ func c05InstallMode(ch *chart.Chart, c c05Case, dns, server bool) (res c05Render
 	inst := action.NewInstall(cfg)
 	if server {
 		cfg.RESTClientGetter = c05Getter{}
+		cfg.Capabilities = c05Caps(c) // what the cluster would report: the same capabilities
 		inst.DryRunOption = "server"
 	} else {
 		inst.DryRun, inst.ClientOnly = true, true
+		inst.APIVersions = append(chartutil.VersionSet{}, c.APIVersions...)
+		if c.KubeVersion != "" {
+			if kv, err := chartutil.ParseKubeVersion(c.KubeVersion); err == nil {
+				inst.KubeVersion = kv
+			}
+		}
 	}
 	inst.ReleaseName, inst.Namespace = "rel", "ns"
 	inst.SubNotes, inst.IncludeCRDs, inst.HideSecret, inst.EnableDNS, inst.SkipSchemaValidation = c.SubNotes, c.IncludeCRDs, c.HideSecret, dns, c.SkipSchema
@@ -285,6 +318,7 @@ func (*c05) Execute(ci any) (res any) {
 		files[i] = c05File{Name: f.Name, Data: h.subst(f.Data)}
 	}
 	obs.Regimes = map[string]string{}
+	shared0 := c05SharedSnapshot()
 	hits0 := atomic.LoadInt64(&h.hits)
 	h.canaryState("A")
 
@@ -417,6 +451,58 @@ func (*c05) Execute(ci any) (res any) {
 			obs.Regimes["dns-switch"] = "same"
 		}
 	}
+	// (vi) other renders of the same process use DIFFERENT capabilities (--api-versions,
+	// --kube-version): this render's output must stay what it is alone, theirs what theirs is alone
+	{
+		other := c
+		other.APIVersions = []string{"other.io/v1beta1", "c05.example/v2", "zz.c05/v9"}
+		if len(c.APIVersions) > 0 && c.APIVersions[0] != "c05.example/v1" {
+			other.APIVersions = []string{"c05.example/v1"}
+		}
+		other.KubeVersion = "v1.19.7"
+		if c.KubeVersion == other.KubeVersion {
+			other.KubeVersion = "v1.33.1"
+		}
+		one := func(cc c05Case) c05Render {
+			ch, err := c05Load(files)
+			if err != nil {
+				return c05Render{Err: "load: " + err.Error()}
+			}
+			return c05Install(ch, cc, cc.EnableDNS)
+		}
+		refB := one(other) // the other render alone
+		cmpB := func(r c05Render) {
+			if d := c05Diff(refB, r); d != "" && !strings.HasPrefix(obs.Regimes["mixed-capabilities"], "differs") {
+				obs.Regimes["mixed-capabilities"] = "differs: the render with the other capabilities changed: " + d
+			}
+		}
+		// sequential A, B, A, B, A
+		for i := 0; i < 2; i++ {
+			r := one(c)
+			all = append(all, r)
+			cmp("mixed-capabilities", r)
+			cmpB(one(other))
+		}
+		r := one(c)
+		all = append(all, r)
+		cmp("mixed-capabilities", r)
+		// concurrent: A and B renders interleaved
+		for round := 0; round < 3; round++ {
+			var wg sync.WaitGroup
+			outA, outB := make([]c05Render, 8), make([]c05Render, 8)
+			for i := 0; i < 8; i++ {
+				wg.Add(2)
+				go func(i int) { defer wg.Done(); outA[i] = one(c) }(i)
+				go func(i int) { defer wg.Done(); outB[i] = one(other) }(i)
+			}
+			wg.Wait()
+			for i := 0; i < 8; i++ {
+				all = append(all, outA[i])
+				cmp("mixed-capabilities", outA[i])
+				cmpB(outB[i])
+			}
+		}
+	}
 	// (v) with a cluster connection (server-side dry run): same outputs, and the DNS stub still in place
 	usesLookup := false
 	for _, f := range files {
@@ -441,6 +527,11 @@ func (*c05) Execute(ci any) (res any) {
 	// engine's other entry points
 	for _, t := range c05Stages(files, c, &obs, !usesLookup) {
 		all = append(all, c05Render{Manifest: t})
+	}
+
+	// a render must not modify what all renders of the process share
+	if shared1 := c05SharedSnapshot(); shared1 != shared0 {
+		obs.Shared = append(obs.Shared, "chartutil.DefaultCapabilities / DefaultVersionSet (backing array included) "+c05FirstDiff(shared0, shared1))
 	}
 
 	// canary tokens and markers over every output produced
@@ -507,7 +598,7 @@ func c05Stages(files []c05File, c c05Case, obs *c05Obs, withClient bool) (texts 
 		obs.Class = "deps"
 		return
 	}
-	caps := chartutil.DefaultCapabilities.Copy()
+	caps := c05Caps(c)
 	opts := chartutil.ReleaseOptions{Name: "rel", Namespace: "ns", Revision: 1, IsInstall: true}
 	rv, err := chartutil.ToRenderValuesWithSchemaValidation(ch, vals, opts, caps, c.SkipSchema)
 	if err != nil {
